@@ -34,7 +34,7 @@ COMPONENTS = {
     "real": ["DefaultRealizationFilter (sort-*)", "EnsembleEvaluator weight-row assignment", "config validation", "plan steps"],
     "stub": ["SimEvaluator", "sim/scripted optimizer", "sim/inject sampler"],
 }
-PROBES = ["rows_compared", "window_emptied", "invalid_window_rejected", "some_failed", "multi_objective_key",
+PROBES = ["ranking_entries_checked", "rows_compared", "window_emptied", "invalid_window_rejected", "some_failed", "multi_objective_key",
           "two_filters", "constraint_flavour", "objective_flavour", "gradient_result_rows", "zero_configured_weight_in_window"]
 
 
@@ -106,6 +106,13 @@ def execute(scn: dict) -> dict:
         if ln.call is None or ln.rows is None:
             continue
         tm = oracles.tm_for(ctx, cfg)
+        if ln.is_function:
+            msg = oracles.ranking_entries_inactive(ctx, cfg, ln.call)
+            if msg is not None:
+                probe("ranking_entry_inactive")
+                viol.append({"clause": "ranked-entry-flagged-inactive", "sig": {}, "detail": msg})
+            else:
+                probe("ranking_entries_checked")
         if ln.is_function:
             fcall, frows = ln.call, ln.rows
         else:
